@@ -44,6 +44,10 @@ func CatalogueForms() []Form {
 		c("labelled_break", "outer:\n\tfor i := uint64(0); i < 3; i++ {\n\t\tfor j := uint64(0); j < 3; j++ {\n\t\t\tif j == 1 {\n\t\t\t\tbreak outer\n\t\t\t}\n\t\t\tr += 1\n\t\t}\n\t}"),
 		c("labelled_continue", "outer:\n\tfor i := uint64(0); i < 3; i++ {\n\t\tfor j := uint64(0); j < 3; j++ {\n\t\t\tif j == 1 {\n\t\t\t\tcontinue outer\n\t\t\t}\n\t\t\tr += 1\n\t\t}\n\t}"),
 		c("if_init", "if z := x + 1; z > 1 {\n\tr = z\n}"),
+		c("if_init_shadows_outer", "if a := x + 100; a > 1 {\n\tr = a\n}"),
+		c("if_init_else", "if a := x + 100; a > 1000 {\n\tr = 1\n} else {\n\tr = a\n}"),
+		c("if_init_ok_lookup", "if v, ok := m[1]; ok {\n\tr = v + 1\n}"),
+		c("switch_init", "switch a := x + 1; a {\ncase 1:\n\tr = 2\n}"),
 		c("for_two_vars", "for i, j := uint64(0), uint64(5); i < j; i++ {\n\tr += 1\n}"),
 		c("for_assign_init", "var i uint64\nfor i = 1; i < 3; i++ {\n\tr += i\n}"),
 		c("for_post_opassign", "for i := uint64(0); i < 6; i += 2 {\n\tr += i\n}"),
@@ -157,6 +161,12 @@ func CatalogueForms() []Form {
 		cd("variadic", "func variadic(vs ...uint64) uint64 {\n\treturn uint64(len(vs))\n}\n", "r = variadic(x, y)"),
 		cd("named_slice_type_append", "type NL []uint64\n", "var l NL\nl = append(l, x)\nr = l[0]"),
 		cd("named_slice_type_index", "type NL2 []uint64\n", "l := NL2(xs)\nr = l[1]\nl[0] = 5"),
+		cd("named_map_bool_value", "type NMB map[uint64]bool\n", "nm := make(NMB)\nnm[1] = true\nrb = nm[7]\nr = b2u(nm[1])"),
+		cd("named_map_struct_value", "type NMS map[uint64]S2\n", "nm := make(NMS)\nnm[1] = S2{a: x, b: 2}\nq := nm[7]\nr = q.a + q.b + nm[1].b"),
+		cd("named_map_string_key", "type NMK map[string]uint64\n", "nm := make(NMK)\nnm[s] = 3\nr = nm[s] + nm[\"zz\"]"),
+		cd("named_map_made_used_plain_bool", "type NMB2 map[uint64]bool\n\nfunc newNMB2() map[uint64]bool {\n\treturn make(NMB2)\n}\n", "nm := newNMB2()\nnm[1] = true\nrb = nm[7]\nr = b2u(nm[1])"),
+		cd("named_map_made_used_plain_struct", "type NMS2 map[uint64]S2\n\nfunc newNMS2() map[uint64]S2 {\n\treturn make(NMS2)\n}\n", "nm := newNMS2()\nnm[1] = S2{a: x, b: 2}\nq := nm[7]\nq1 := nm[1]\nr = q.a + q.b + q1.b"),
+		cd("named_slice_made_used_plain", "type NSL2 []uint32\n\nfunc newNSL2() []uint32 {\n\treturn make(NSL2, 2)\n}\n", "ns := newNSL2()\nns[1] = w\nr32 = ns[0] + ns[1]"),
 		cd("named_map_type", "type NM map[uint64]uint64\n", "nm := make(NM)\nnm[1] = x\ndelete(nm, 2)\nr = nm[1]"),
 		cd("named_ptr_type", "type NP *uint64\n", "var np NP = p\nr = *np"),
 		cd("generic_func", "func genId[T any](v T) T {\n\treturn v\n}\n", "r = genId[uint64](x)"),
